@@ -284,6 +284,8 @@ def run(tier="quick"):
     chk.count("insert_functions", nins, floor=2)
     nbl = LR.check_dup_backlinks(chk, prog, only={f.name for f in LR.iface_functions(prog, "map", with_parent=True)})
     nlen = sum(LR.check_len_on_remove(chk, prog, u, only=names) for u in ("linked_list.c", "dlinked_list.c"))
+    nbal = sum(LR.check_len_balance(chk, prog, u, only=names) for u in ("linked_list.c", "dlinked_list.c"))
+    chk.count("len_balance_functions", nbal, floor=1)
     nd = 0
     for u in ("linked_list.c", "dlinked_list.c"):
         nd += LR.check_chain_derefs(chk, prog, u, only=names)[1]
